@@ -364,6 +364,10 @@ class SelectorWorld:
         m = self.meta[name]
         if obj is None or m["retired"]:
             return
+        if op.get("expect") == "reject" and (m["ok_fits"] > 0 or int(getattr(obj, "n_selected_", 0) or 0) != 0):
+            # only a selector that has never selected anything is "never fitted"
+            self.count("expect_reject_not_applicable")
+            return
         if self.pid == "C08" and m.get("c08_threshold_reached") and not op.get("expect"):
             self.count("out_of_domain_after_threshold_stop")
             return
@@ -532,6 +536,8 @@ class SelectorWorld:
             if op.get("expect") == "reject":
                 if isinstance(e, ValueError):
                     self.probe("warm_start_on_unfitted_rejected")
+                    if m["fits"] > 1:
+                        self.probe("warm_start_rejected_after_failed_first_fit")
                 else:
                     self.violate("warm_unfitted_wrong_error", cls, f"{type(e).__name__}: {e}")
                 return
